@@ -3,6 +3,7 @@ package mon
 import (
 	"bytes"
 	"fmt"
+	"reflect"
 	"sort"
 	"strings"
 	"sync"
@@ -23,7 +24,7 @@ func init() {
 	Register(&Monitor{
 		ID: "C11",
 		Rule: "per generated namespace-heavy document (several URIs, document prefixes that clash with the query's, alias prefixes, local-name collisions, namespaced attributes): random binding environments (prefix->URI maps with aliases and rebinding of document prefixes) x random paths with prefixed/unprefixed/p:*/*:x name tests, evaluated by the library and the reference model; the same AST under a second, consistently renamed environment must give the identical node list; the document re-serialised as XML twice with different prefixes (ReadXml) must give results that correspond node for node; " +
-			"variables of all four types incl. node-sets in document/reverse order/empty used inside expressions and as the whole expression (must be exactly the bound value: same cursors, same order); user functions in no namespace and in namespaces incl. ones shadowing count/string/position, observed by a trace monitor (argument values in order, Context.Result() node, ContextPosition()) against the model's own trace; evaluated references to an unbound prefix (name test, variable, function), variable or function must yield an error. distinct_nontrivial = distinct (environment signature, expression class, outcome class)",
+			"variables of all four types incl. node-sets in document/reverse order/empty used inside expressions and as the whole expression (must be exactly the bound value: same cursors, same order); user functions in no namespace and in namespaces incl. ones shadowing count/string/position, observed by a trace monitor (argument values in order, Context.Result() node, ContextPosition()) against the model's own trace, and the same namespace/variable/function bindings passed to Unmarshal with the queries as struct tags; evaluated references to an unbound prefix (name test, variable, function), variable or function must yield an error. distinct_nontrivial = distinct (environment signature, expression class, outcome class)",
 		Assumptions: []string{"name tests on the namespace axis are outside the statement"},
 		NCases:      func(tier string) int { return map[string]int{"quick": 3000, "thorough": 120000}[tier] },
 		Case:        c11Case,
@@ -360,7 +361,7 @@ func c11Case(r *evid.Run, tier string, idx int, g *rng.R) {
 		}
 		last.Preds = []xast.Expr{xast.Binary{Op: "=", L: call, R: xast.N(marker)}}
 		extra := append(append([]xsel.ContextApply{}, vbinds...), xsel.WithFunctionNS(space, fd.local, libFn))
-		_, ok := w.check(r, "function/result", idx, d.Root, base, false, extra...)
+		fv, ok := w.check(r, "function/result", idx, d.Root, base, false, extra...)
 		w.env.Funcs = nil
 		if !ok {
 			continue
@@ -372,6 +373,22 @@ func c11Case(r *evid.Run, tier string, idx int, g *rng.R) {
 			r.Violate("function/trace", map[string]any{"case": idx, "what": fmt.Sprintf("%s: calls observed by the registered function differ from the specification: %s", xast.String(base), firstDiff(lk, mk)), "library_events": head(lk, 8), "spec_events": head(mk, 8), "document": d.Dump()})
 		} else if len(mk) > 0 {
 			r.Sample("function", 2, map[string]any{"case": idx, "expr": xast.String(base), "events": head(lk, 4)})
+		}
+		// the same bindings through Unmarshal: struct tags are queries like any other
+		if fset, isSet := fv.(refeval.NodeSet); isSet {
+			bare := xast.Call{Prefix: fd.prefix, Local: fd.local}
+			t := reflect.StructOf([]reflect.StructField{
+				{Name: "C", Type: reflect.TypeOf([]string{}), Tag: reflect.StructTag(fmt.Sprintf("xsel:%q", xast.String(base)))},
+				{Name: "M", Type: reflect.TypeOf(float64(0)), Tag: reflect.StructTag(fmt.Sprintf("xsel:%q", xast.String(bare)))},
+			})
+			target := reflect.New(t)
+			uerr, panicked := safeUnmarshal(xsel.NodeSet{w.m.Root}, target.Interface(), append(append([]xsel.ContextApply{}, w.opts...), extra...)...)
+			r.Eval(1)
+			r.Count("unmarshal_with_bindings", 1)
+			gotC, gotM := float64(target.Elem().Field(0).Len()), target.Elem().Field(1).Float()
+			if uerr != nil || panicked != nil || gotC != float64(len(fset)) || gotM != marker {
+				r.Violate("function/unmarshal", map[string]any{"case": idx, "what": fmt.Sprintf("Unmarshal with the same bindings into struct{C []string `%s`; M float64 `%s`} gives len(C)=%v M=%v (%v); Exec gives %d nodes and %v", t.Field(0).Tag, t.Field(1).Tag, gotC, gotM, errStr(uerr), len(fset), marker), "document": d.Dump()})
+			}
 		}
 	}
 	// (d) unbound references must be errors when evaluated
